@@ -21,4 +21,11 @@ theorem matchAll_atomic :
     addMatchAllPlainUses = 0 ∧ removeMatchAllPlainUses = 0 ∧ containsMatchAllPlainUses = 0 ∧
     matchAllType = "*atomic.Bool" ∧ mutexType = "sync.RWMutex" := by decide
 
+/-- the filter has exactly the state the model has (no cache, no second index) and no method
+    besides the three the lock discipline was extracted from -/
+theorem state_and_methods :
+    filterFields = ["mutex sync.RWMutex", "matchAll *atomic.Bool", "mode uint32", "index int",
+      "ipList [listSize][2]uint32", "ipMaps [32]map[uint32]bool"] ∧
+    filterMethods = ["Add", "Remove", "Contains"] := by decide
+
 end Glb.Tie.FilterLock
